@@ -94,7 +94,7 @@ def oracle_c03(obs, run):
     for c in obs.calls:
         avail = set()
         for s in obs.submits:
-            if s['t'] <= c['end'] + 1e-9:
+            if s['t'] <= (c['end'] if c['end'] is not None else 1e18) + 1e-9:
                 avail |= set(s['ok_prefix'])
         extra = set(c.get('args_end', c['args'])) - avail
         if extra:
@@ -131,7 +131,13 @@ def run_programs(aiu, seqs, gapsets, envs, oracle, st, label):
     for seq in seqs:
         for gs in gapsets:
             ev = concretise(seq, (0.0,) + tuple(gs))
-            for fails, dur in envs:
+            variants = [ev]
+            late = [i for i, (g, op) in enumerate(ev) if op[0] == 'put' and abs(g - (T - EPS)) < 1e-9]
+            if late:       # 'just before the timer' also means: only a few loop iterations before it
+                i = late[0]
+                for k in (1, 2, 3, 4):
+                    variants.append(ev[:i] + [(ev[i][0], ('put_late', ev[i][1][1], k))] + ev[i + 1:])
+            for ev, (fails, dur) in itertools.product(variants, envs):
                 obs, run = BF.execute(aiu, ev, T, fails, dur)
                 st.executions += 1
                 st.transitions += len(ev) + len(obs.calls)
